@@ -35,6 +35,10 @@ def print_case(ast, seed, paren_postfix, style=None):
         g.sp = lambda: " "
     elif style == "tight":
         g.sp = lambda: ""
+    elif style == "plain":
+        # every optional decoration off (all draws 1: no redundant parentheses), single blanks
+        g.ch = ch = Chooser(tape=[1] * 20000)
+        g.sp = lambda: " "
     g.paren_postfix = paren_postfix
     return "{ " + g.show_stmt(from_json(ast)) + " }"
 
@@ -125,6 +129,12 @@ class EngineG(EngineBase):
             texts.append({"kind": "detonly", "text": ch.choice(TIGHT_HAZARDS, "tight"), "hazard": True})
             texts.append({"kind": "detonly", "text": ch.choice(OPERATOR_RUNS, "oprun"), "hazard": True})
             texts.append({"kind": "broken", "text": ch.choice(BROKEN, "broken-before-tight")})
+        if ch.chance(1, 2, "stmt-hazard"):
+            # statement-level shapes: a block (or an if/for body) directly followed by a statement that starts with an
+            # operator which is both unary and binary; sizeof(T) followed by such an operator; a parenthesised comma
+            # expression as the only argument
+            j = gen_c.to_jsonable(ch.choice(gen_c.stmt_hazard_cases(), "stmt-hazard-case"))
+            texts.append({"kind": "gen", "ast": j, "pseed": 0, "pp": False, "text": print_case(j, 0, False, "plain"), "hazard": True})
         if ch.chance(1, 2, "twins"):
             # two different ASTs whose texts differ only in whitespace: a parser (or cache) that ignores token
             # boundaries confuses them, and different nodes see them in different orders
